@@ -232,6 +232,9 @@ def compile_tfel_check(ck):
                        flags=["-c"], includes=inc, std="gnu++20", defines=TC_DEFINES, opt="-O0")
 
 
+COMPARISON = '@TestType Absolute;\n@Precision 1.e-6;\n@Test "ref.txt" "ref.txt" 2;\n'
+
+
 def check_text(cmds):
     return "".join('@Command "sh %s.sh"%s;\n' % (k, "{shall_fail: true}" if f else "") for k, f in cmds)
 
@@ -263,7 +266,9 @@ def tfel_check_layer(ck, rng, built, objs):
         for k, (body, _) in TC_KINDS.items():
             with open(os.path.join(d, k + ".sh"), "w") as f:
                 f.write(body + "\n")
-        tests = {}
+        tests, compared = {}, {}
+        with open(os.path.join(d, "ref.txt"), "w") as f:
+            f.write("1 2\n3 4\n5 6\n")
         for t in range(ntests):
             n = rng.choice([1, 1, 2, 3])
             kinds = [rng.choice(list(TC_KINDS)) if rng.random() < 0.55 else rng.choice(["ok", "slow0"]) for _ in range(n)]
@@ -271,8 +276,12 @@ def tfel_check_layer(ck, rng, built, objs):
             # (on a command that succeeds the option changes nothing in this tree: not generated)
             sf = [TC_KINDS[k][1] != "e0" and rng.random() < 0.3 for k in kinds]
             tests["t%d" % t] = list(zip(kinds, sf))
+            # a comparison that always passes (a file against itself) on some tests: a failing command must
+            # still fail the test (commands' failures are only discarded on request)
+            with_cmp = rng.random() < 0.35
+            compared["t%d" % t] = with_cmp
             with open(os.path.join(d, "t%d.check" % t), "w") as f:
-                f.write(check_text(zip(kinds, sf)))
+                f.write(check_text(zip(kinds, sf)) + (COMPARISON if with_cmp else ""))
         import subprocess
         try:
             p = ck.run([binary, "--jobs=%d" % jobs] + ["t%d.check" % t for t in range(ntests)], cwd=d, timeout=240)
@@ -303,7 +312,7 @@ def tfel_check_layer(ck, rng, built, objs):
             cl = os.path.join(d, name + ".checklog")
             clog = strip(open(cl).read()) if os.path.exists(cl) else ""
             rep = {"site": "tfel-check/src/TestLauncher.cxx, tfel-check/src/tfel-check.cxx", "jobs": jobs,
-                   "check_file": check_text(cmds),
+                   "check_file": check_text(cmds) + (COMPARISON if compared[name] else ""),
                    "scripts": {k + ".sh": TC_KINDS[k][0] for k in kinds}, "test_verdict": got_test,
                    "test_log": clog[-1500:], "tfel_check_exit_status": p.returncode}
             for i, (k, shall_fail) in enumerate(cmds, 1):
@@ -341,6 +350,7 @@ def tfel_check_layer(ck, rng, built, objs):
                     jobs, p.returncode, "every test succeeds" if all_ok else "some tests fail"),
                     {"site": "tfel-check/src/tfel-check.cxx", "jobs": jobs, "tests": tests,
                      "scripts": {k + ".sh": v[0] for k, v in TC_KINDS.items()}, "log_tail": log[-2500:], "stderr": p.stderr[-500:]}, True)
+    stats["tests_with_a_comparison"] = stats.get("tests_with_a_comparison", 0)
     return stats
 
 
